@@ -76,7 +76,21 @@ def range_rules(ctx, tree):
         ctx.anchor_lost("src_range parser", f"found {len(sr)}")
     else:
         table = {}
-        for n in A.walk(sr[0]["body"]):
+        # src_range and the helpers of its module it is split into
+        mod = sr[0]["path"].rsplit("::", 1)[0]
+        local = {f["path"].rsplit("::", 1)[1]: f for f in tree.fn_list if f["path"].rsplit("::", 1)[0] == mod}
+        todo, fam = [sr[0]], []
+        while todo:
+            f = todo.pop()
+            if any(f is g for g in fam):
+                continue
+            fam.append(f)
+            for n in A.walk(f["body"]):
+                if n.get("e") in ("call", "path"):
+                    pth = n["f"]["p"] if n.get("e") == "call" and n["f"].get("e") == "path" else n.get("p") if n.get("e") == "path" else None
+                    if pth and pth.rsplit("::", 1)[-1] in local:
+                        todo.append(local[pth.rsplit("::", 1)[-1]])
+        for n in (x for f in fam for x in A.walk(f["body"])):
             if n.get("e") == "call" and n["f"].get("e") == "path" and n["f"]["p"].rsplit("::", 1)[-1] == "value" and len(n["args"]) == 2:
                 v, t = A.strip(n["args"][0]), A.strip(n["args"][1])
                 if v.get("e") == "lit" and v.get("t") == "bool" and t.get("e") == "call" and t["args"]:
